@@ -22,7 +22,11 @@ Paths == { <<47, 97>>, <<47, 97, 98>>, <<47, 97, 47, 120>>, <<47, 97, 47, 99>>, 
 MkOp(o, path, from, hasv) ==
     O(<<M(Ref!S_op, S(o)), M(Ref!S_path, S(path))>> \o (IF Len(from) > 0 THEN <<M(Ref!S_from, S(from))>> ELSE <<>>)
         \o (IF hasv THEN <<M(Ref!S_value, I(9))>> ELSE <<>>))
-OpsU == {MkOp(Ref!S_add, pa, <<>>, TRUE) : pa \in Paths} \cup {MkOp(Ref!S_remove, pa, <<>>, FALSE) : pa \in Paths}
+D(txt) == [t |-> "double", text |-> txt]
+MkTest(path, v) == O(<<M(Ref!S_op, S(Ref!S_test)), M(Ref!S_path, S(path)), M(Ref!S_value, v)>>)
+\* test against 1, 1.0, 2.0, 1.5, 2 (the documents hold the integers 1, 2, 3)
+TestVals == {I(1), D(<<49, 46, 48>>), D(<<50, 46, 48>>), D(<<49, 46, 53>>), I(2)}
+OpsU == {MkOp(Ref!S_add, pa, <<>>, TRUE) : pa \in Paths} \cup {MkTest(pa, v) : pa \in Paths, v \in TestVals} \cup {MkOp(Ref!S_remove, pa, <<>>, FALSE) : pa \in Paths}
         \cup {MkOp(Ref!S_replace, pa, <<>>, TRUE) : pa \in Paths}
         \cup {MkOp(Ref!S_move, pa, fr, FALSE) : pa \in Paths, fr \in Paths} \cup {MkOp(Ref!S_copy, pa, fr, FALSE) : pa \in Paths, fr \in Paths}
 Init == doc \in Docs /\ op \in OpsU
@@ -35,6 +39,10 @@ IsOp(name) == Ref!Member(op, Ref!S_op).s = name
 PathOf == Ref!Member(op, Ref!S_path).s
 AddThenTest == IsOp(Ref!S_add) => LET r == Ref!OpStep(doc, op) IN
                   (r.ok /\ PathOf[Len(PathOf)] # 45) => Ref!OpStep(r.v, MkOp(Ref!S_test, PathOf, <<>>, TRUE)).ok
+\* RFC 6902 4.6: test succeeds exactly when the location exists and holds an equal value - numbers by numeric value
+TestIsNumeric == IsOp(Ref!S_test) =>
+    LET g == Ref!Lookup(doc, PathOf)  v == Ref!Member(op, Ref!S_value) IN
+    Ref!OpStep(doc, op).ok <=> (g.ok /\ IF Ref!IsNum(g.v) /\ Ref!IsNum(v) THEN Ref!NumVal(g.v) = Ref!NumVal(v) ELSE Ref!EqualV(g.v, v))
 \* remove succeeds exactly where the location exists; afterwards a member is gone (an array element is replaced by its
 \* successor: the array is one shorter) and every other top-level member is untouched
 ParentPath == LET toks == Ref!P!Tokens(PathOf) IN SubSeq(PathOf, 1, Len(PathOf) - Len(toks[Len(toks)]) - 1)
